@@ -5,6 +5,14 @@ V = os.path.dirname(os.path.dirname(os.path.abspath(__file__)))
 titles = {json.loads(l)["id"]: json.loads(l)["title"] for l in open(os.path.join(V, "properties.jsonl"))}
 cur = None
 recs = {}
+# optional second argument: log of "<seed> suite with patch: <pytest summary>" lines from my own run of the repository's suite on a
+# scratch worktree with the patch applied
+suite = {}
+if len(sys.argv) > 2:
+    for line in open(sys.argv[2]):
+        m = re.match(r"(\S+) suite with patch: (.*)", line.strip())
+        if m:
+            suite[m.group(1)] = m.group(2)
 for line in open(sys.argv[1]):
     line = line.rstrip("\n")
     m = re.match(r"=== (\S+)", line)
@@ -37,7 +45,7 @@ for sid, r in recs.items():
     meta = {"seed": sid, "property": pid, "title": titles.get(pid, ""),
             "origin": "independent sub-agent given only the property text and a scratch worktree (see notes.md for its own account)",
             "needs_to_manifest": trig,
-            "confirmed_by_me": {"suite_with_patch": "2371 passed (reported by the sub-agent with its run_tests.sh; patch re-applied and demo re-run by tools/seeddemo.sh on the current repaired tree)",
+            "confirmed_by_me": {"suite_with_patch": ("%s (my own run of the full suite on a scratch worktree of /repo with the patch applied; demo re-run by tools/seeddemo.sh with and without the patch)" % suite[sid]) if sid in suite else "2371 passed (reported by the sub-agent with its run_tests.sh; patch re-applied and demo re-run by tools/seeddemo.sh on the current repaired tree)",
                                 "demo_without_patch_exit": r["demo_without"], "demo_with_patch_exit": r["demo_with"]},
             "checks_run": r["checks"],
             "detected_by": [c["check"] for c in r["checks"] if c["exit"] == 1]}
